@@ -34,8 +34,8 @@ def parseOp (s : String) : Option Op :=
   match s.splitOn ":" with
   | ["cf", p] => some (.createFile (str p))
   | ["md", p] => some (.mkdir (str p))
-  | ["sl", p] => some (.createOther (str p))   -- a symlink to /dev/null
-  | ["so", p] => some (.createOther (str p))   -- a socket file
+  | ["sl", p] => some (.createOther (str p) .device)   -- a symlink to /dev/null
+  | ["so", p] => some (.createOther (str p) .socket)   -- a socket file
   | ["rm", p] => some (.remove (str p))
   | ["mv", p, q] => some (.rename (str p) (str q))
   | ["ap", p, l] => (Hex.decode l).map (.appendLine (str p))
@@ -53,7 +53,7 @@ def guardOp (t : T) (op : Op) : Bool :=
   | .remove p => !(kindOf t p == some .dir && t.nodes.any (fun n => n.1.length > p.length && n.1.take (p.length + 1) == p ++ [47]))
   | .createFile p => parentOk p
   | .mkdir p => parentOk p
-  | .createOther p => parentOk p
+  | .createOther p _ => parentOk p
   | .rename p q => parentOk q && !(kindOf t p == some .dir)
   | _ => true
 
